@@ -169,3 +169,6 @@ package utils
 //@   trusted
 //@   nopanic
 //@   modifies nothing
+
+// DefaultHandler is initialised with a *StdHandler and never assigned by oxy (read-only package variable).
+//@ globalinv DefaultHandler: DefaultHandler != nil
